@@ -48,6 +48,16 @@ def main():
     results_all = re.findall(r"test result: (\w+)\. (\d+) passed; (\d+) failed", out)
     demo_fails = any(r[0] == "FAILED" and r[1] != "2542" for r in results_all) and f"--test demo_{n}" in out
     meta["ran"].append({"cmd": "(with change) cargo test --offline --no-fail-fast", "suite_2542_pass": suite_ok, "demo_fails": demo_fails, "summary": out.strip().splitlines()[-6:]})
+    if clean_ok and suite_ok and not demo_fails:
+        # a defect that only exists in optimised builds: the demonstration is run with --release
+        rc, out2 = sh(f"cargo test --offline --release --test demo_{n} 2>&1 | grep -E 'test result|FAILED' | head -8", cwd=wt)
+        rel_fails = "FAILED" in out2
+        sh("git checkout -- src", cwd=wt)
+        rc, out3 = sh(f"cargo test --offline --release --test demo_{n} 2>&1 | grep -E 'test result|FAILED' | head -8", cwd=wt)
+        rel_clean_ok = "test result: ok" in out3 and "FAILED" not in out3
+        meta["ran"].append({"cmd": f"cargo test --offline --release --test demo_{n} (with change / clean tree)", "demo_fails_with_change": rel_fails, "demo_passes_clean": rel_clean_ok})
+        demo_fails = rel_fails and rel_clean_ok
+        meta["demo_needs_release"] = True
     sh("git checkout -- . && rm -rf tests", cwd=wt)
     print(f"clean demo passes={clean_ok}  suite passes with change={suite_ok}  demo fails with change={demo_fails}")
     if not (clean_ok and suite_ok and demo_fails):
